@@ -102,9 +102,9 @@ theorem C08_all_managers_partial (ms : List Mgr) (s : Stanza)
 
 /-! ## 3. Today's code violates the property: the defect cells are real -/
 
-/-- the property text for all bundled managers and all stanzas -/
-def FullC08 : Prop :=
-  ∀ (ms : List Mgr) (s : Stanza), answeredRight s (dispatch (ms.map rowOf) s).sent = true
+/- `FullC08` (model file) is the property text for all bundled managers and all stanzas:
+   `∀ ms s, answeredRight s (dispatch (ms.map rowOf) s).sent = true`.
+   `refute ms s h` (Proofs) turns one configuration + stanza that is not answered right into `¬ FullC08`. -/
 
 /-- **Every defect cell is a violation**: with only that manager installed (and the stanza not consumed
 by the request table first) the pipeline does NOT answer right — for every stanza in the cell. -/
@@ -121,11 +121,6 @@ theorem C08_fails_at_every_defect_cell (m : Mgr) (s : Stanza) (hd : (rowOf m).de
     simp_all
   all_goals
     (rcases sent with _ | ⟨x, _ | ⟨y, l⟩⟩ <;> simp_all [okOne])
-
-/-- one configuration and stanza that is not answered right refutes the full statement -/
-theorem refute (ms : List Mgr) (s : Stanza)
-    (h : answeredRight s (dispatch (ms.map rowOf) s).sent = false) : ¬ FullC08 := by
-  intro hf; have := hf ms s; rw [h] at this; exact Bool.noConfusion this
 
 /-- default set `[roster, vCard, version, time, discovery]`:
 `<iq type='get' from='juliet@example.net/balcony' id='…'><vCard xmlns='vcard-temp'/></iq>` gets no reply. -/
@@ -249,6 +244,11 @@ theorem C08_holds_after_fixes (ms : List Mgr) (s : Stanza) :
 theorem every_handler_site_has_a_row :
     ∀ p ∈ Generated.handlerSites, ∃ m, p.2.1 = some m ∧ m ∈ allMgrs ∧ (rowOf m).newStyle = p.2.2 := by
   decide
+
+/-- the claim predicates called in each `handleStanza` body of the source are exactly the ones the model
+rows transcribe (a handler that starts looking at a new kind of payload breaks this) -/
+theorem handler_predicates_are_the_modelled_ones :
+    Generated.handlerPredicates = modelledPredicates := by decide
 
 /-- the model's default set is the `BasicExtensions` block of the QXmppClient constructor, in order -/
 theorem default_set_is_the_sources :
